@@ -282,8 +282,9 @@ def body_supplied(ch, ctx):
 # single attribute columns whose dialect has one reading, at the corners of the inference rules
 CORNERS = [
     # a repeated key is a repeated key even when its first occurrence carries no value
+    ("ID=q;Alias=;Alias=X", {"repeated keys": True, "fmt": "gff3", "keyval separator": "="}),
     ("ID=q;Alias=;Alias=X;Alias=Y", {"repeated keys": True, "fmt": "gff3", "keyval separator": "="}),
-    ('gene_id "g"; tag ""; tag "basic"; tag "CCDS";', {"repeated keys": True, "fmt": "gtf", "quoted GFF2 values": True, "trailing semicolon": True}),
+    ('gene_id "g"; tag ""; tag "basic";', {"repeated keys": True, "fmt": "gtf", "quoted GFF2 values": True, "trailing semicolon": True}),
     # '=' inside a quoted GTF value does not make the column GFF3
     ('gene_id "ENSG=1"; transcript_id "T1";', {"fmt": "gtf", "keyval separator": " ", "quoted GFF2 values": True}),
     ('gene_id "cov=100%"; note "a=b";', {"fmt": "gtf", "keyval separator": " "}),
